@@ -250,7 +250,15 @@ class Inliner:
                     st = "staticmethod" in m.decorators()
                     cm = "classmethod" in m.decorators()
                     return m, cm, (ast.Name(id="cls", ctx=ast.Load()) if cm else None) if not st else None
-        elif isinstance(f, ast.Name):
+        if isinstance(f, ast.Attribute) and not (isinstance(f.value, ast.Name) and f.value.id in ("self", "cls")) and not f.attr.startswith("__"):
+            # a new method of *another* class called on some object  x.helper(...):  resolved when the name is unique among the
+            # functions that did not exist on the pinned tree and no pinned function carries it (so it cannot be anything else)
+            cands = [x for q, lst in repo.funcs.items() for x in lst if x.name == f.attr]
+            new_c = [x for x in cands if self.is_new(x) and x.cls is not None]
+            if len(new_c) == 1 and len(cands) == 1 and not new_c[0].is_property() and "staticmethod" not in new_c[0].decorators() \
+                    and "classmethod" not in new_c[0].decorators():
+                return new_c[0], True, f.value
+        if isinstance(f, ast.Name):
             # nested helper of the owner, then a function of the same module
             cands = [x for x in repo.funcs.get(f"{owner.qual}.{f.id}", [])]
             if not cands and owner.parent is not None:
@@ -508,6 +516,22 @@ def simplify(fn):
             if isinstance(n.func, ast.Name) and n.func.id == "getattr" and len(n.args) == 2 and not n.keywords and \
                     isinstance(n.args[1], ast.Constant) and isinstance(n.args[1].value, str) and n.args[1].value.isidentifier():
                 return ast.copy_location(ast.Attribute(value=n.args[0], attr=n.args[1].value, ctx=ast.Load()), n)
+            return n
+
+        def visit_IfExp(self, n):
+            self.generic_visit(n)
+            # conditional expressions with a constant boolean arm are conjunctions / disjunctions (guard cascades of predicates)
+            def neg(e):
+                return e.operand if isinstance(e, ast.UnaryOp) and isinstance(e.op, ast.Not) else ast.UnaryOp(op=ast.Not(), operand=e)
+            t, b, o = n.test, n.body, n.orelse
+            if isinstance(b, ast.Constant) and b.value is False:
+                return ast.copy_location(ast.BoolOp(op=ast.And(), values=[neg(t), o]), n)          # False if t else o
+            if isinstance(o, ast.Constant) and o.value is False:
+                return ast.copy_location(ast.BoolOp(op=ast.And(), values=[t, b]), n)               # b if t else False
+            if isinstance(b, ast.Constant) and b.value is True:
+                return ast.copy_location(ast.BoolOp(op=ast.Or(), values=[t, o]), n)                # True if t else o
+            if isinstance(o, ast.Constant) and o.value is True:
+                return ast.copy_location(ast.BoolOp(op=ast.Or(), values=[neg(t), b]), n)           # b if t else True
             return n
 
         def _fuse(self, n):
